@@ -533,7 +533,7 @@ struct Engine : public vf::Engine {
         for (int s = 0; s < nScen; s++) {
             Group G; G.tag = "scenario";
             bool strict = w.chance(1, 4), ignoreOther = w.chance(1, 5), scope = w.chance(1, 5);
-            G.args.push_back(strict); G.args.push_back(ignoreOther); G.args.push_back(scope); G.args.push_back(cfront && w.chance(1, 6)); G.args.push_back(cfront && w.chance(1, 6) ? 2 : 1); G.args.push_back(cfront && w.chance(1, 5)); G.args.push_back(cfront && w.chance(1, 5) ? (int64_t)w.range(1, 3) : 0);
+            G.args.push_back(strict); G.args.push_back(ignoreOther); G.args.push_back(scope); G.args.push_back(w.chance(1, cfront ? 6 : 10)); G.args.push_back(cfront && w.chance(1, 6) ? 2 : 1); G.args.push_back(cfront && w.chance(1, 5)); G.args.push_back(cfront && w.chance(1, 5) ? (int64_t)w.range(1, 3) : 0);
             bool mixedScopes = !strict && !scope && w.chance(1, 4), shortForms = w.chance(1, 5);
             int nFn = (int)w.range(1, 4); int fns[4]; for (int i = 0; i < nFn; i++) fns[i] = (int)w.below(N_FN);
             int nExp = (int)w.small(1, 12);
@@ -763,7 +763,11 @@ struct Engine : public vf::Engine {
             runOnce(scs, orders, cpp, outs, fails);
             for (size_t i = 0; i < scs.size(); i++) {
                 Vec<Cls> cls;
-                if (scs[i].preFail) { probe("scenario_fails_before_mock_check"); continue; }
+                if (scs[i].preFail) {      // the test failed on its own; the mock check in its teardown (and the plugin's) must not fail it a second time
+                    probe("scenario_fails_before_mock_check");
+                    if (outs[i].failures != 1) r.fail("C08", "fails_once", sg("what", outs[i].failures > 1 ? "a test that had already failed was failed again by the mock check" : "the test's own failure was lost"), sfmt("scenario %zu schedule %d: %zu failures recorded", i, k, outs[i].failures));
+                    continue;
+                }
                 if (scs[i].rounds > 1) { probe("scenario_two_rounds_with_clear"); continue; }
                 { bool xg = false; for (size_t q = 0; q < scs[i].calls.size(); q++) if (scs[i].calls[q].xget) xg = true; if (scs[i].type2 || scs[i].tol) xg = true; if (xg) { probe("scenario_reads_through_other_getter"); continue; } }
                 if (!buildClasses(scs[i], cls)) { probe("scenario_outside_precondition"); continue; }
